@@ -2,7 +2,7 @@
    Only statements; every proof is [exact <lemma>] from Proofs/.  The model is Model/ResultParser.v
    (GeophiresXResult of geophires_x_client/geophires_x_result.py); set.pop() is modelled as an arbitrary
    choice [k] among the distinct matching lines. *)
-From Coq Require Import String Ascii List ZArith QArith Qabs Bool.
+From Coq Require Import String Ascii List ZArith QArith Qabs Bool PeanoNat.
 From Verif Require Import Base.Flat Model.ResultParser Proofs.ResultParserProofs Proofs.ResultParserTableProofs
      Gen.C10Fields Gen.C10Labels.
 Import ListNotations.
@@ -196,6 +196,22 @@ Example C10_ex_bare :
   field_of_line "Number of segments" false (render_scalar 6 "Number of segments" 28 "1" None (" " ++ NL))
   = MR (MInt 1) (Some "count").
 Proof. vm_compute. reflexivity. Qed.
+
+Example C10_ex_same_print :   (* the hypothesis of C10_deterministic_partial holds for two differently padded copies *)
+  let lines := [render_scalar 6 "Well depth" 45 "3.0" (Some "kilometer") NL;
+                render_scalar 6 "Well depth" 20 "3.0" (Some "kilometer") NL; "      Other:  1 m" ++ NL] in
+  (forall l, In l lines -> contains (field_marker 4 "Well depth") l = true ->
+     exists ind pad trail, all_ws trail = true /\ (2 <= ind + pad)%nat /\
+       contains ("Well depth" ++ ":") (spaces pad ++ ("3.0" ++ " " ++ "kilometer") ++ trail) = false /\
+       l = render_scalar ind "Well depth" pad "3.0" (Some "kilometer") trail)
+  /\ get_result_field 1 "Well depth" false 4 lines = Some (MR (MFlt 30 (-1)) (Some "kilometer")).
+Proof.
+  split; [| vm_compute; reflexivity].
+  intros l [<- | [<- | [<- | []]]] H.
+  - exists 6%nat, 45%nat, NL. repeat split; try (vm_compute; reflexivity). apply Nat.leb_le; reflexivity.
+  - exists 6%nat, 20%nat, NL. repeat split; try (vm_compute; reflexivity). apply Nat.leb_le; reflexivity.
+  - vm_compute in H. discriminate.
+Qed.
 
 Example C10_ex_two_blank_gap_loses_the_unit :   (* why the theorems ask for ONE blank before the unit *)
   field_of_line "X" false ("      X:     5.0  MW" ++ NL) = MR MNone None.
